@@ -352,8 +352,8 @@ def split_imp(j):
     return prems, j
 
 
-def setup():
-    basic.load_theory("misc")                     # nat, int, real, set, real intervals
+def setup(thy="misc"):
+    basic.load_theory(thy)                        # misc: nat, int, real, set, real intervals;  real: without the intervals
     from prover import z3wrapper, sympywrapper  # noqa: F401
     assert z3wrapper.z3_loaded, "z3 is not installed"
     # the flag is part of the anchored state: its value is logged here and recorded in every event; the T clause
@@ -464,7 +464,7 @@ def free_vars(j, acc=None):
 # ------------------------------------------------------------------------------------------------
 
 def mode_z3vec(vec_path, out_path, k, n):
-    setup()
+    setup("real")           # the universe has no interval terms: z3wrapper.norm_term tries fewer rewrite rules (3x faster)
     out = Out(out_path, base=k * 10 ** 6)
     bad = 0
     with open(vec_path) as f:
